@@ -20,4 +20,15 @@ unsigned vf_mp_last(MemoryPersister *p) { unsigned s; return p->MemoryPersister:
 unsigned vf_mp_nearest(MemoryPersister *p, unsigned req, unsigned last) { return p->MemoryPersister::find_nearest_highest_seqnum(req, last); }
 unsigned vf_mp_range(MemoryPersister *p, Session *s, unsigned from, unsigned to)
 { return p->MemoryPersister::get(from, to, *s, static_cast<bool (Session::*)(const Session::SequencePair&, Session::RetransmissionContext&)>(&VSession::rec_cb)); }
+// ---- file persister (C26 file family, C27, C29): real FIX8::FilePersister from runtime/filepersist.cpp over models/posixfs.c
+void vf_fp_ctor(FilePersister *p, unsigned rotnum) { new (p) FilePersister(rotnum); }
+bool vf_fp_init(FilePersister *p, const char *dir, unsigned dl, const char *name, unsigned nl, bool purge) { return p->FilePersister::initialise(f8String(dir, dl), f8String(name, nl), purge); }
+bool vf_fp_put(FilePersister *p, unsigned seq, const char *d, unsigned n) { return p->FilePersister::put(seq, f8String(d, n)); }
+bool vf_fp_putc(FilePersister *p, unsigned a, unsigned b) { return p->FilePersister::put(a, b); }
+int vf_fp_get(FilePersister *p, unsigned seq, char *out) { f8String to; if (!p->FilePersister::get(seq, to)) return -1; memcpy(out, to.data(), to.size()); return int(to.size()); }
+bool vf_fp_getc(FilePersister *p, unsigned *a, unsigned *b) { return p->FilePersister::get(*a, *b); }
+unsigned vf_fp_last(FilePersister *p) { unsigned s; return p->FilePersister::get_last_seqnum(s); }
+unsigned vf_fp_nearest(FilePersister *p, unsigned req, unsigned last) { return p->FilePersister::find_nearest_highest_seqnum(req, last); }
+unsigned vf_fp_range(FilePersister *p, Session *s, unsigned from, unsigned to)
+{ return p->FilePersister::get(from, to, *s, static_cast<bool (Session::*)(const Session::SequencePair&, Session::RetransmissionContext&)>(&VSession::rec_cb)); }
 }
